@@ -14,11 +14,16 @@ From XV Require Import Lib.Sx.
 Import ListNotations.
 
 Definition iqid := N.
-(* an inbound IQ: its id, a tag telling copies apart, and whether it is a request (get/set)
-   rather than a response (result/error) *)
-Record resp := { rid : iqid; rtag : N; rreq : bool }.
-Definition result (i : iqid) (v : N) : resp := {| rid := i; rtag := v; rreq := false |}.
-Definition request (i : iqid) (v : N) : resp := {| rid := i; rtag := v; rreq := true |}.
+(* the type attribute of an inbound IQ: result/error (a response), get/set (a request), or
+   anything else (missing, "Result", "ERROR", "foo", ...: the decoder hands such stanzas on) *)
+Inductive iqkind := KResponse | KRequest | KOther.
+(* an inbound IQ: its id, a tag telling copies apart, and its kind *)
+Record resp := { rid : iqid; rtag : N; rkind : iqkind }.
+(* not a response: only type result or error can answer a pending request *)
+Definition rreq (r : resp) : bool := match rkind r with KResponse => false | _ => true end.
+Definition result (i : iqid) (v : N) : resp := {| rid := i; rtag := v; rkind := KResponse |}.
+Definition request (i : iqid) (v : N) : resp := {| rid := i; rtag := v; rkind := KRequest |}.
+Definition other (i : iqid) (v : N) : resp := {| rid := i; rtag := v; rkind := KOther |}.
 
 Record chst := {
   c_owner : iqid;            (* id the request was registered under *)
@@ -97,7 +102,7 @@ Definition router_step (s : cst) (k : nat) : cst :=
   | Some t =>
       match r_pc t with
       | RStart =>
-          if rreq (r_iq t) then set_pc s k ROrd     (* a get/set answers nothing: ordinary routing *)
+          if rreq (r_iq t) then set_pc s k ROrd     (* not a result/error: answers nothing, ordinary routing *)
           else
           (* lookup and delete in ONE critical section *)
           match lookup (rid (r_iq t)) (table s) with
